@@ -92,9 +92,17 @@ def run(ctx):
 
     # ---------------------------------------------------------------- generator threading
     n_draw = 0
-    lib_fns = [f for f in ctx.prog.units() if f.crate.name in ("bourse_de", "bourse")]
+    from .c19 import builder_view, PYCLASSES
+
+    def helper_of_extension(f):
+        """method of a helper type of the extension crate (not a Python class): analysed inside the pymethods that use it"""
+        return f.crate.name == "bourse" and f.kind == "AssocFn" and f.impl_trait is None and (f.impl_adt or "").split("::")[-1].split("<")[0] not in PYCLASSES
+
+    def view(f):
+        return builder_view(m, f) if f.crate.name == "bourse" else m.q(f)
+    lib_fns = [f for f in ctx.prog.units() if f.crate.name in ("bourse_de", "bourse") and not helper_of_extension(f)]
     for f in lib_fns:
-        q = m.q(f)
+        q = view(f)
         for c in q.calls():
             crate = c.term.j.get("callee_crate") or ""
             if crate not in RNG_CRATES or c.name in CONSTRUCT:
@@ -115,7 +123,7 @@ def run(ctx):
     ctx.check(n_draw >= 20, "threading", "census", "-", "%d draw sites in the simulation crates" % n_draw)
     # calls that pass a generator on to workspace functions: must pass the own generator too
     for f in lib_fns:
-        q = m.q(f)
+        q = view(f)
         for c in q.calls():
             if c.target is None and not (c.term.j.get("trait") or "").startswith("bourse_de::agents"):
                 continue
@@ -129,7 +137,7 @@ def run(ctx):
     # ---------------------------------------------------------------- construction sites
     cons = []
     for f in lib_fns:
-        q = m.q(f)
+        q = view(f)
         for c in q.calls():
             crate = c.term.j.get("callee_crate") or ""
             if c.name in CONSTRUCT or (crate in RNG_CRATES and c.name == "new" and "Rng" in c.resolved):
@@ -139,7 +147,7 @@ def run(ctx):
     per_fn = {}
     for f, c in cons:
         per_fn.setdefault(f.path, []).append(c)
-        ok = allowed_owner(f) and c.name == "seed_from_u64" and c.args and c.args[0][0] == "param" and c.args[0][2] == "seed" and not c.guards and not m.q(f).cfg.in_loop(c.b)
+        ok = allowed_owner(f) and c.name == "seed_from_u64" and c.args and c.args[0][0] == "param" and c.args[0][2] == "seed" and not c.guards and not view(f).cfg.in_loop(c.b)
         ctx.check(ok, "construction", f.short(), c.loc(), "%s seeds its generator once from its `seed` parameter" % f.short(),
                   "generator constructed in %s by %s" % (f.short(), c.text()))
     ctx.check(len(cons) >= 4 and all(len(v) == 1 for v in per_fn.values()), "construction", "census", "-", "%d generator construction sites (2 runners + PyO3 constructors), one per function" % len(cons))
@@ -193,8 +201,8 @@ def own_generator(m, q, a, allow_local_seeded=False):
             return False, "?"
         if (re.fullmatch(r"&mut [A-Z]\w?", ty) or (ty.startswith("&mut ") and ("Xoroshiro" in ty or ty.split("::")[-1].split("<")[0].endswith("Rng")))) and not names:
             return True, "its own generator parameter `%s`" % root[2]
-        if "StepEnv" in ty and names and names[-1] == "rng":
-            return True, "the environment's seeded generator self.rng"
+        if l == 1 and names and ("StepEnv" in ty or "bourse::" in ty) and names[-1] == "rng":
+            return True, "the environment's seeded generator self.%s" % ".".join(names)
         return False, "?"
     if root[0] == "local" and allow_local_seeded:
         l = root[1]
